@@ -1047,6 +1047,9 @@ func (x *Exec) callModifies(c *ssa.CallCommon, mods map[string]bool) bool {
 	if x.isAssumedPure(callee) {
 		return false
 	}
+	if !(callee.Blocks != nil && x.inlinable(callee)) && x.readOnlyCall(callee) {
+		return false
+	}
 	_ = key
 	// inlined: scan body
 	if callee.Blocks != nil && x.inlinable(callee) {
